@@ -86,9 +86,11 @@ impl Cfg {
 
 #[derive(Clone, Debug)]
 pub struct Gate {
-    /// Wait until `pipes[pipe].log` contains at least `nuls` NUL bytes.
+    /// Wait until `pipes[pipe].log` contains at least `nuls` NUL bytes ...
     pub pipe: usize,
     pub nuls: usize,
+    /// ... and the harness counter `W::counter` has reached this value.
+    pub counter: u64,
 }
 
 #[derive(Debug)]
@@ -197,6 +199,8 @@ pub struct W {
     pub pending_polls: u64,
     pub cancelled_this_poll: bool,
     pub cancels: u64,
+    /// Free-running counter a harness task may advance; gates can wait for it.
+    pub counter: u64,
     /// First violation detected by an in-run invariant (class, message).
     pub fail: Option<(String, String)>,
     /// Human-readable description of the scenario (filled in when a sample / trace is wanted).
@@ -238,6 +242,7 @@ impl W {
             pending_polls: 0,
             cancelled_this_poll: false,
             cancels: 0,
+            counter: 0,
             fail: None,
             scenario: None,
             want_sample: trace,
@@ -318,7 +323,7 @@ impl W {
     fn gate_ok(&self, g: &Option<Gate>) -> bool {
         match g {
             None => true,
-            Some(g) => self.pipes[g.pipe].log_nuls >= g.nuls,
+            Some(g) => self.pipes[g.pipe].log_nuls >= g.nuls && self.counter >= g.counter,
         }
     }
 
